@@ -61,6 +61,9 @@ CLAIMS = {
  'C16': ("Lifecycle logic proved on a handle-table model for ALL op sequences: C16_frame(_trace) (reads between create and free return exactly what create stored, whatever happens to other handles and to the caller's input), C16_use_after_free, C16_live_iff, C16_no_leak, C16_input_not_retained, C16_commute, C16_interleave, C16_schedule_independent (every interleaving gives each thread the outputs of its sequential run), C16_accessors (translated accessor bodies). Memory validity itself is NOT provable here and is OBSERVED: random create/read/clobber/free scripts over many live handles, 1-16 threads, both widths, both build profiles, executed under AddressSanitizer+LeakSanitizer (thorough: valgrind) and diffed with the model; failing scripts are shrunk.",
          'Lean kernel + standard axioms; translator; sanitizers observe only what the instrumented C driver and the intercepted allocator see (Rust code itself is not instrumented).',
          'Lean 4 theorems on a handle-table model + sanitizer-observed op-sequence correspondence'),
+ 'C18': ("Modelled logic proved: C18_order / C18_order_jobs (for EVERY split tree and leaf order of the parallel evaluation the matrix is (Spec.pairs n).map dist), C18_layout (slot = C07 layout against the regenerated index expression), C18_bytes (byte-identical across schedules), C18_codec (LE round trip; length not multiple of 8 rejected), C18_method_parse / C18_method (exactly the seven names, via the translated FromStr; unknown => exit 1, no rows; none => single), C18_output(_rows/_records) (rows are exactly linkage's steps in order), C18_saved_bytes, C18_save_load(_rows), C18_load_reject. Observed, not proved: rayon, csv/serde/ryu/clap/byteorder, libm. Correspondence: the real binary built from the working tree, RAYON_NUM_THREADS in {1,2,3,8,16} x repeats, all method names + invalid names, generated and shipped CSVs; saved bytes, stdout rows, save->load and exit statuses compared with the model (bit-exact Haversine) and with an independent Rust linkage call.",
+         "Lean kernel + standard axioms; rayon's ordered-collect contract; csv/serde/ryu/clap/byteorder; glibc libm shared with Lean's Float runtime (checked bit-exact every run); Word64 round-trip laws for Float.",
+         'Lean 4 theorems on a schedule-parametric model + binary-level correspondence across thread counts + Rust linkage oracle'),
 }
 NOT_YET = "check not built yet in this round (build in progress)"
 
